@@ -213,7 +213,10 @@ func (h *H) projHeader(g *Gen, ci int, mode string) {
 	hb, err := encoder.Marshal(&hdr)
 	db0, err2 := encoder.Marshal(&donor)
 	if err != nil || err2 != nil {
-		res.Note("proj: marshal header: %v %v", err, err2)
+		if err == nil {
+			err = err2
+		}
+		h.marshalFailed("proj", ci, "Header", hdr, err)
 		return
 	}
 	_, es, err := entriesOf(hb)
@@ -252,7 +255,7 @@ func (h *H) projHeader(g *Gen, ci int, mode string) {
 			wantFull = "ok " + render(reflect.TypeOf(core.Header{}), *full)
 		}
 		if out := h.ask("decv Header " + mode + " " + hx(raw)); out != wantFull {
-			res.Mismatch(lib.Mismatch{Sig: "full-decoder/Header/" + v.name, Input: hx(raw), Model: firstDiff(out, wantFull), Impl: firstDiff(wantFull, out)})
+			res.Mismatch(lib.Mismatch{Sig: "full-decoder/Header/" + v.name, Input: clip(hx(raw)), Model: firstDiff(out, wantFull), Impl: firstDiff(wantFull, out)})
 		}
 		type pr struct {
 			acc   string
@@ -297,7 +300,7 @@ func (h *H) projHeader(g *Gen, ci int, mode string) {
 			// model of the partial decoder
 			res.Compared(1)
 			if out := h.ask("acc " + p.acc + " " + mode + " " + hx(raw)); out != p.got {
-				res.Mismatch(lib.Mismatch{Sig: "partial-decoder/" + p.acc + "/" + v.name, Input: hx(raw), Model: firstDiff(out, p.got), Impl: firstDiff(p.got, out)})
+				res.Mismatch(lib.Mismatch{Sig: "partial-decoder/" + p.acc + "/" + v.name, Input: clip(hx(raw)), Model: firstDiff(out, p.got), Impl: firstDiff(p.got, out)})
 			}
 			if fullErr != nil {
 				continue // the full decoder rejects the record: nothing to agree with
@@ -324,7 +327,7 @@ func (h *H) projBlob(g *Gen, ci int, mode string) {
 	var txs []core.Transaction
 	var rcs []*core.TransactionReceipt
 	for j := 0; j < 3; j++ {
-		tx := g.Tx(projCfg(3+ci+j))
+		tx := g.Tx(projCfg(3 + ci + j))
 		txs = append(txs, tx)
 		rcs = append(rcs, g.Receipt(tx, projCfg(3+ci+j)))
 	}
@@ -335,7 +338,10 @@ func (h *H) projBlob(g *Gen, ci int, mode string) {
 		b, err := marshalAs(tTxIface, reflect.ValueOf(txs[j]))
 		b2, err2 := encoder.Marshal(rcs[j])
 		if err != nil || err2 != nil {
-			res.Note("proj: marshal item: %v %v", err, err2)
+			if err == nil {
+				err = err2
+			}
+			h.marshalFailed("proj", ci, "Transaction/TransactionReceipt", []any{txs[j], rcs[j]}, err)
 			return
 		}
 		txb, rcb = append(txb, b), append(rcb, b2)
@@ -384,14 +390,14 @@ func (h *H) projBlob(g *Gen, ci int, mode string) {
 			wantFull = "ok " + render(reflect.TypeOf(&core.TransactionReceipt{}), full)
 		}
 		if out := h.ask("decv TransactionReceipt " + mode + " " + hx(item)); out != wantFull {
-			res.Mismatch(lib.Mismatch{Sig: "full-decoder/TransactionReceipt/" + v.name, Input: hx(item), Model: firstDiff(out, wantFull), Impl: firstDiff(wantFull, out)})
+			res.Mismatch(lib.Mismatch{Sig: "full-decoder/TransactionReceipt/" + v.name, Input: clip(hx(item)), Model: firstDiff(out, wantFull), Impl: firstDiff(wantFull, out)})
 		}
 		st, stErr := core.GetTransactionExecutionStatusByBlockAndIndex(d, 9, 1)
 		gotSt := okOrErr(stErr, render(reflect.TypeOf(false), st.Reverted)+" "+render(reflect.TypeOf(""), st.RevertReason))
 		res.Compared(1)
 		res.Hit("proj-accessor:GetTransactionExecutionStatusByBlockAndIndex")
 		if out := h.ask("acc ExecutionStatus " + mode + " " + hx(item)); out != gotSt {
-			res.Mismatch(lib.Mismatch{Sig: "partial-decoder/ExecutionStatus/" + v.name, Input: hx(item), Model: firstDiff(out, gotSt), Impl: firstDiff(gotSt, out)})
+			res.Mismatch(lib.Mismatch{Sig: "partial-decoder/ExecutionStatus/" + v.name, Input: clip(hx(item)), Model: firstDiff(out, gotSt), Impl: firstDiff(gotSt, out)})
 		}
 		evs, evErr := core.GetTransactionEventsByBlockNumber(d, 9)
 		gotEv := "err"
@@ -401,7 +407,7 @@ func (h *H) projBlob(g *Gen, ci int, mode string) {
 		res.Compared(1)
 		res.Hit("proj-accessor:GetTransactionEventsByBlockNumber")
 		if out := h.ask("acc TransactionEvents " + mode + " " + hx(item)); out != gotEv {
-			res.Mismatch(lib.Mismatch{Sig: "partial-decoder/TransactionEvents/" + v.name, Input: hx(item), Model: firstDiff(out, gotEv), Impl: firstDiff(gotEv, out)})
+			res.Mismatch(lib.Mismatch{Sig: "partial-decoder/TransactionEvents/" + v.name, Input: clip(hx(item)), Model: firstDiff(out, gotEv), Impl: firstDiff(gotEv, out)})
 		}
 		if fullErr == nil && full != nil {
 			wantSt := "ok " + render(reflect.TypeOf(false), full.Reverted) + " " + render(reflect.TypeOf(""), full.RevertReason)
@@ -414,7 +420,10 @@ func (h *H) projBlob(g *Gen, ci int, mode string) {
 			}
 			// neighbours are untouched by the re-shaped middle record
 			for _, j := range []int{0, 2} {
-				if d := Diff(core.TransactionEvents{Events: rcs[j].Events, TransactionHash: rcs[j].TransactionHash}, evs[j]); evErr == nil && d != "" {
+				if evErr != nil || len(evs) != 3 {
+					break
+				}
+				if d := Diff(core.TransactionEvents{Events: rcs[j].Events, TransactionHash: rcs[j].TransactionHash}, evs[j]); d != "" {
 					viol("core.GetTransactionEventsByBlockNumber", "neighbour", "neighbouring receipt changed at "+d)
 				}
 			}
@@ -440,7 +449,7 @@ func (h *H) projBlob(g *Gen, ci int, mode string) {
 			wantFull = "ok " + s
 		}
 		if out := h.ask("decv Transaction " + mode + " " + hx(item)); out != wantFull {
-			res.Mismatch(lib.Mismatch{Sig: "full-decoder/Transaction/" + v.name, Input: hx(item), Model: firstDiff(out, wantFull), Impl: firstDiff(wantFull, out)})
+			res.Mismatch(lib.Mismatch{Sig: "full-decoder/Transaction/" + v.name, Input: clip(hx(item)), Model: firstDiff(out, wantFull), Impl: firstDiff(wantFull, out)})
 		}
 		hashes, hErr := core.GetTransactionHashesByBlockNumber(d, 9)
 		// per record: the model answers for the re-shaped item; the real accessor fails as a whole
@@ -452,7 +461,7 @@ func (h *H) projBlob(g *Gen, ci int, mode string) {
 		res.Compared(1)
 		res.Hit("proj-accessor:GetTransactionHashesByBlockNumber")
 		if out := h.ask("acc TransactionHash " + mode + " " + hx(item)); out != gotH {
-			res.Mismatch(lib.Mismatch{Sig: "partial-decoder/TransactionHash/" + v.name, Input: hx(item), Model: firstDiff(out, gotH), Impl: firstDiff(gotH, out)})
+			res.Mismatch(lib.Mismatch{Sig: "partial-decoder/TransactionHash/" + v.name, Input: clip(hx(item)), Model: firstDiff(out, gotH), Impl: firstDiff(gotH, out)})
 		}
 		if fullErr == nil {
 			fh := full.Hash()
@@ -464,7 +473,7 @@ func (h *H) projBlob(g *Gen, ci int, mode string) {
 			case gotH != "ok "+render(tFelt, *fh):
 				viol("core.GetTransactionHashesByBlockNumber", "differs", fmt.Sprintf("full decoder: %s; partial decoder: %s", render(tFelt, *fh), gotH))
 			}
-			if hErr == nil && (hashes[0] != *txs[0].Hash() || hashes[2] != *txs[2].Hash()) {
+			if hErr == nil && len(hashes) == 3 && (hashes[0] != *txs[0].Hash() || hashes[2] != *txs[2].Hash()) {
 				viol("core.GetTransactionHashesByBlockNumber", "neighbour", "neighbouring transaction hash changed")
 			}
 		}
